@@ -627,7 +627,7 @@ class Ctx:
         # TPF cannot carry a scaffold that begins with a gap ("for assemblies all
         # three can carry"): records beginning with N are compared as AGP only
         lines = wl["input"].splitlines()
-        leading_gap = any(ln.startswith(">") and i + 1 < len(lines) and lines[i + 1][:1] in "Nn"
+        leading_gap = any(ln.startswith(">") and i + 1 < len(lines) and lines[i + 1][:1] not in tuple("ACGTacgt")
                           for i, ln in enumerate(lines))
         variants = [(agp_in, "AGP")] + ([] if leading_gap else [(tpf_in, "TPF")])
         if leading_gap:
